@@ -60,6 +60,16 @@ Theorem C03_process :
 Proof. exact process_safe. Qed.
 Print Assumptions C03_process.
 
+(* every restore that ran (also after a failed initialisation sequence; at any point of any schedule) left its fan safe *)
+Theorem C03_every_restore_safe :
+  forall fans nmons sched,
+    forallb ev_detectable sched = true ->
+    let s := exec repaired (init fans nmons) sched in
+    forall c p r, In c (ctrls s) -> c_restore c = Some (p, r) ->
+      c_dev c = r_dev r /\ (safe (sup c) (c_orig c) (c_dev c) \/ last_resort_write_failed p r).
+Proof. exact process_every_restore_safe. Qed.
+Print Assumptions C03_every_restore_safe.
+
 (* D2 as found: the second signal panics the process, the fan stays in manual mode at reduced speed *)
 Theorem C03_process_d2_refuted :
   let s := exec d2_only (init one_fan 1) sched_two_signals in
